@@ -241,7 +241,7 @@ def check_c02(pid, tier, seed, replay=None):
     # synthetic set-ups written by TLC from Setup.tla: well-formed shapes and one-field boundary mutations, decoded with silent and pseudo-random packets
     import checks.syn as SY
     cases, gstats, gproblems = SY.gen_cases(('shapes', 'mutations', 'residue'))
-    for rep in range(2 if q else 30): scns += [s for s in SY.build_scenarios(random.Random(seed * 100 + rep), cases, 8 if q else 24)]
+    for rep in range(2 if q else 30): scns += [s for s in SY.build_scenarios(random.Random(seed * 100 + rep), cases, 8 if q else 24, probes=False)]
     for j, s in enumerate(scns): s.name = s.name if not s.name.startswith(('shapes-', 'mutations-', 'residue-')) else f'{s.name}-r{j}'
     problems = problems + gproblems
     for s_ in scns: s_.prelude = prelude(links)
